@@ -866,6 +866,179 @@ def gen_basic(repo):
 
 GENERATORS["BasicGen"] = gen_basic
 
+# ---------------------------------------------------------------------------------------------------------------------------
+# TwoLevelCheckpointSchedule._iterator -> coq/Model/GenLang2.v
+LOC2 = {"n": "Ln", "n0s": "Ln0s", "n1s": "Ln1s", "cp_n": "Lcp", "n_snapshots": "Lns", "n0": "Ln0", "n1": "Ln1"}
+STACK = "snapshots"
+
+
+class GenTr2:
+    def z(self, e):
+        if isinstance(e, ast.Constant) and isinstance(e.value, int) and not isinstance(e.value, bool):
+            return "(ZC %s)" % (str(e.value) if e.value >= 0 else "(%d)" % e.value)
+        a = _self_attr(e)
+        if a in ("_n", "_r", "_max_n", "_period", "_binomial_snapshots"):
+            return {"_n": "ZN", "_r": "ZR", "_max_n": "ZMax", "_period": "ZPeriod", "_binomial_snapshots": "ZBs"}[a]
+        if isinstance(e, ast.Name) and e.id in LOC2:
+            return "(ZL %s)" % LOC2[e.id]
+        if isinstance(e, ast.BinOp) and type(e.op) in (ast.Add, ast.Sub, ast.Mult, ast.FloorDiv):
+            nm = {ast.Add: "ZAdd", ast.Sub: "ZSub", ast.Mult: "ZMul", ast.FloorDiv: "ZDiv"}[type(e.op)]
+            return "(%s %s %s)" % (nm, self.z(e.left), self.z(e.right))
+        if isinstance(e, ast.Call) and isinstance(e.func, ast.Name) and not e.keywords:
+            if e.func.id == "min" and len(e.args) == 2:
+                return "(ZMin %s %s)" % (self.z(e.args[0]), self.z(e.args[1]))
+            if e.func.id == "len" and len(e.args) == 1 and isinstance(e.args[0], ast.Name) and e.args[0].id == STACK:
+                return "ZLen"
+        if isinstance(e, ast.Call) and isinstance(e.func, ast.Name) and e.func.id == "n_advance" and len(e.args) == 2 and len(e.keywords) == 1 \
+                and e.keywords[0].arg == "trajectory" and _self_attr(e.keywords[0].value) == "_trajectory":
+            return "(ZNadv %s %s)" % (self.z(e.args[0]), self.z(e.args[1]))
+        if isinstance(e, ast.Subscript) and isinstance(e.value, ast.Name) and e.value.id == STACK and isinstance(e.slice, ast.UnaryOp) \
+                and isinstance(e.slice.op, ast.USub) and isinstance(e.slice.operand, ast.Constant) and e.slice.operand.value == 1:
+            return "ZTop"
+        raise Untranslatable("integer expression " + ast.dump(e)[:90])
+
+    def b(self, e):
+        if isinstance(e, ast.Constant) and e.value is True:
+            return "BTrue"
+        if isinstance(e, ast.Compare) and len(e.ops) == 1:
+            op, l, r = e.ops[0], e.left, e.comparators[0]
+            if _self_attr(l) == "_max_n" and isinstance(r, ast.Constant) and r.value is None and isinstance(op, (ast.Is, ast.IsNot)):
+                return "BMaxIsNone" if isinstance(op, ast.Is) else "BMaxNotNone"
+            for k, nm in ((ast.Eq, "BEq"), (ast.NotEq, "BNe"), (ast.Lt, "BLt"), (ast.Gt, "BGt"), (ast.GtE, "BGe")):
+                if isinstance(op, k):
+                    return "(%s %s %s)" % (nm, self.z(l), self.z(r))
+        raise Untranslatable("condition " + ast.dump(e)[:90])
+
+    def st(self, e):
+        if _is_st_const(e):
+            return "(SC %s)" % e.attr
+        if _self_attr(e) == "_binomial_storage":
+            return "SBst"
+        raise Untranslatable("storage expression " + ast.dump(e)[:60])
+
+    def bool_c(self, e):
+        if isinstance(e, ast.Constant) and isinstance(e.value, bool):
+            return "true" if e.value else "false"
+        raise Untranslatable("boolean constant")
+
+    def action(self, c):
+        if not (isinstance(c, ast.Call) and isinstance(c.func, ast.Name) and not c.keywords):
+            raise Untranslatable("yielded value")
+        f, a = c.func.id, c.args
+        if f == "Forward" and len(a) == 5:
+            return "(AForward %s %s %s %s %s)" % (self.z(a[0]), self.z(a[1]), self.bool_c(a[2]), self.bool_c(a[3]), self.st(a[4]))
+        if f == "Reverse" and len(a) == 3:
+            return "(AReverse %s %s %s)" % (self.z(a[0]), self.z(a[1]), self.bool_c(a[2]))
+        if f in ("Copy", "Move") and len(a) == 3:
+            return "(A%s %s %s %s)" % (f, self.z(a[0]), self.st(a[1]), self.st(a[2]))
+        if f in ("EndForward", "EndReverse") and not a:
+            return "A" + f
+        raise Untranslatable("action " + f)
+
+    def stmts(self, body):
+        body = _strip_doc(body)
+        if not body:
+            return "SSkip"
+        parts = [self.stmt(x) for x in body]
+        out = parts[-1]
+        for x in reversed(parts[:-1]):
+            out = "(SSeq %s %s)" % (x, out)
+        return out
+
+    def stmt(self, s):
+        if isinstance(s, ast.If):
+            return "(SIf %s %s %s)" % (self.b(s.test), self.stmts(s.body), self.stmts(s.orelse))
+        if isinstance(s, ast.While) and not s.orelse:
+            return "(SWhile %s %s)" % (self.b(s.test), self.stmts(s.body))
+        if isinstance(s, ast.Raise) and isinstance(s.exc, ast.Call) and isinstance(s.exc.func, ast.Name) and s.exc.func.id in GEXN and s.cause is None:
+            return "(SRaise %s)" % GEXN[s.exc.func.id]
+        if isinstance(s, ast.Assert) and s.msg is None:
+            return "(SAssert %s)" % self.b(s.test)
+        if isinstance(s, ast.Delete) and all(isinstance(t, ast.Name) and t.id in LOC2 for t in s.targets):
+            return "(SDel [%s])" % "; ".join(LOC2[t.id] for t in s.targets)
+        if isinstance(s, ast.Expr) and isinstance(s.value, ast.Yield) and s.value.value is not None:
+            return "(SYield %s)" % self.action(s.value.value)
+        if isinstance(s, ast.Expr) and isinstance(s.value, ast.Call) and isinstance(s.value.func, ast.Attribute) and isinstance(s.value.func.value, ast.Name) \
+                and s.value.func.value.id == STACK and not s.value.keywords:
+            if s.value.func.attr == "pop" and not s.value.args:
+                return "SListPop"
+            if s.value.func.attr == "append" and len(s.value.args) == 1:
+                return "(SListPush %s)" % self.z(s.value.args[0])
+        if isinstance(s, ast.AugAssign) and isinstance(s.op, ast.Add) and _self_attr(s.target) in ("_n", "_r"):
+            return "(SSet%s (ZAdd %s %s))" % ("N" if _self_attr(s.target) == "_n" else "R", "ZN" if _self_attr(s.target) == "_n" else "ZR", self.z(s.value))
+        if isinstance(s, ast.Assign) and len(s.targets) == 1:
+            t = s.targets[0]
+            if isinstance(t, ast.Name) and t.id in LOC2:
+                return "(SSetL %s %s)" % (LOC2[t.id], self.z(s.value))
+            if isinstance(t, ast.Name) and t.id == STACK and isinstance(s.value, ast.List) and len(s.value.elts) == 1:
+                return "(SListInit %s)" % self.z(s.value.elts[0])
+            a = _self_attr(t)
+            if a == "_n":
+                return "(SSetN %s)" % self.z(s.value)
+            if a == "_r":
+                return "(SSetR %s)" % self.z(s.value)
+        raise Untranslatable("statement " + ast.dump(s)[:100])
+
+
+def _check_protocol(repo):
+    """the protocol around the generator (schedule.py): what next() / iter() / n / r / max_n do, as the model assumes -- compared as text"""
+    stree = ast.parse(open(os.path.join(repo, "checkpoint_schedules", "schedule.py")).read())
+    base = [c for c in ast.walk(stree) if isinstance(c, ast.ClassDef) and c.name == "CheckpointSchedule"]
+    if len(base) != 1:
+        raise Untranslatable("class CheckpointSchedule")
+    bm = _methods(base[0])
+    EXPECT = {
+        "__init__": ("self, max_n=None", "if max_n is not None and max_n < 1:\n    raise ValueError('max_n must be positive')\nself._n = 0\nself._r = 0\nself._max_n = max_n"),
+        "__init_subclass__": ("cls, **kwargs", "super().__init_subclass__(**kwargs)\ncls_iter = cls._iterator\n@functools.wraps(cls_iter)\ndef _iterator(self):\n    if not hasattr(self, '_iter'):\n        self._iter = cls_iter(self)\n    return self._iter\ncls._iterator = _iterator"),
+        "__iter__": ("self", "return self"),
+        "__next__": ("self", "return next(self._iterator())"),
+        "n": ("self", "return self._n"), "r": ("self", "return self._r"), "max_n": ("self", "return self._max_n"),
+    }
+    for name, (args, body) in EXPECT.items():
+        f = bm.get(name)
+        if f is None:
+            raise Untranslatable("CheckpointSchedule.%s not found" % name)
+        got = "\n".join(ast.unparse(x) for x in _strip_doc(f.body))
+        if ast.unparse(f.args) != args or got != body:
+            raise Untranslatable("CheckpointSchedule.%s is not the protocol the model assumes: (%s) %r" % (name, ast.unparse(f.args), got[:120]))
+
+
+def gen_twolevel(repo):
+    _check_protocol(repo)
+    tree = ast.parse(open(os.path.join(repo, "checkpoint_schedules", "twolevel_binomial.py")).read())
+    classes = {c.name: c for c in ast.walk(tree) if isinstance(c, ast.ClassDef)}
+    c = classes.get("TwoLevelCheckpointSchedule")
+    if c is None:
+        raise Untranslatable("class TwoLevelCheckpointSchedule")
+    ms = _methods(c)
+    f = ms.get("_iterator")
+    if f is None or [a.arg for a in f.args.args] != ["self"] or f.decorator_list:
+        raise Untranslatable("TwoLevelCheckpointSchedule._iterator(self)")
+    for m in ("__next__", "__iter__", "finalize", "n", "r", "max_n", "is_running"):
+        if m in ms:
+            raise Untranslatable("TwoLevelCheckpointSchedule overrides %s" % m)
+    fi, asg, sup = _init_assigns(c)
+    if sup is None or sup.args or sup.keywords:
+        raise Untranslatable("TwoLevelCheckpointSchedule.__init__: super().__init__() with no argument")
+    for attr, par in (("_period", "period"), ("_binomial_snapshots", "binomial_snapshots"), ("_binomial_storage", "binomial_storage"), ("_trajectory", "binomial_trajectory")):
+        if not (isinstance(asg.get(attr), ast.Name) and asg[attr].id == par):
+            raise Untranslatable("TwoLevelCheckpointSchedule.__init__ does not set self.%s = %s" % (attr, par))
+    ex = ms.get("is_exhausted")
+    exb = _strip_doc(ex.body) if ex is not None else []
+    if len(exb) != 1 or not isinstance(exb[0], ast.Return) or ast.unparse(exb[0].value) != "False":
+        raise Untranslatable("TwoLevelCheckpointSchedule.is_exhausted is not `return False`")
+    # n_advance is the function of multistage.py (the one NAdvanceGen.v ties to the model)
+    imp = [n for n in ast.walk(tree) if isinstance(n, ast.ImportFrom) and any(a.name == "n_advance" and a.asname is None for a in n.names)]
+    if len(imp) != 1 or imp[0].module != "multistage" or imp[0].level != 1:
+        raise Untranslatable("n_advance is not imported from .multistage")
+    return "\n".join(["(* GENERATED by harness/translate.py from checkpoint_schedules/twolevel_binomial.py (TwoLevelCheckpointSchedule._iterator) -- do not edit *)",
+                      "From Coq Require Import ZArith List Bool.", "From CS Require Import Actions Online GenLang2 GenTwo.", "Import ListNotations.", "Open Scope Z_scope.", "",
+                      "Definition two_prog : stmt :=", "  %s." % GenTr2().stmts(f.body),
+                      "Lemma two_prog_is_model : two_prog = GenTwo.two_prog_model.", "Proof. reflexivity. Qed.", ""]) + "\n"
+
+
+GENERATORS["TwoLevelGen"] = gen_twolevel
+
 
 if __name__ == "__main__":
     repo = os.environ.get("VERIF_REPO", "/repo")
